@@ -115,6 +115,7 @@ type Env struct {
 	AnyI interface{} // holds an int
 	AnyS interface{} // holds a string
 	AnyN interface{} // holds nil
+	AnyF interface{} // holds a float64
 
 	// function-valued fields; all log their calls
 	FnI    func(int) int
@@ -259,6 +260,7 @@ func Fill(e *Env, style int, r *runner.Rng) {
 	e.BadRe = "a(b"
 	e.NilIt = nil
 	e.AnyN = nil
+	e.AnyF = float64(r.Intn(9)) / 2
 	switch style {
 	case 0:
 		e.PIt = &Item{log: l}
